@@ -353,6 +353,12 @@ def directed_cases():
             for st in range(4):
                 q = q0[st:] + q0[:st]
                 add("d_near_rectangle", [mkstruct("top", [e_boundary(1, 0, closed(q)), e_text("A", 1, 0, (9, 9))])])
+    # a label inside / outside a boundary that spans most of the 32-bit coordinate range (the containment test multiplies
+    # coordinate differences: products reach 2^66)
+    BIG = 2000000000
+    for tri, q in (([(-BIG, -BIG), (BIG, -BIG), (-BIG, BIG)], (-BIG // 2, -BIG // 2)), ([(-BIG, -BIG), (BIG, -BIG), (-BIG, BIG)], (BIG // 2, BIG // 2)),
+                   ([(-BIG, -BIG), (BIG, -BIG), (BIG, BIG)], (BIG - 7, -BIG + 9)), ([(0, 0), (BIG, 1), (BIG, BIG), (1, BIG)], (BIG // 2, BIG // 2 + 1))):
+        add("d_label_huge_polygon", [mkstruct("top", [e_boundary(1, 0, closed(tri)), e_text("A", 1, 0, q)])])
     # labels on a rectangle: inside, edge, corner, outside, other layer, two names, case
     R = e_boundary(4, 0, rect_xy(0, 0, 10, 6))
     for q in ((5, 3), (0, 3), (10, 6), (11, 3), (5, -1), (5, 7)):
@@ -929,6 +935,7 @@ def run(chk, replay=None):
     t0 = time.time()
     chk.proof_leg(MODEL_TARGETS, "Properties/C06.v", PROOF_FILES + ["Raw/RawFlatten_proofs.v"], "Properties.C06")
     kernel_tie_leg(chk, "transform")
+    kernel_tie_leg(chk, "contains")       # the label pass calls Polygon/Rect/Path::contains
     kernel_tie_leg(chk, "raw_gds")       # GdsImporter::import_boundary generated from the source = the model (Properties/KernelsRaw2.v)
     kernel_tie_leg(chk, "raw_gdsi")      # import_point / import_box / import_path / import_instance generated from the source = the model (Properties/KernelsRawGdsImport.v)
     chk.cov.setdefault("timing_s", {})["proof_leg"] = round(time.time() - t0, 1)
